@@ -1914,9 +1914,19 @@ def archive_contracts(reg):
     AP = [("file_like", p_ext("BytesIO")), ("archive_path", p_opt(p_str()))]
 
     out.append(FnContract(
-        target=f"{ARCH}::_should_skip_file", assumed=True, params=[("filename", p_unk()), ("basename", p_unk())],
-        result_maker=lambda ex, st, ctx: VBool(z3.Bool(fresh_name("skip"))), raises=[],
-        note="verified by the C09 pack (functional contract, raises nothing); here only: total, returns a bool"))
+        target=f"{ARCH}::_is_supported_file_cached", assumed=True, params=[("filename", p_unk())],
+        result_maker=lambda ex, st, ctx: VBool(z3.Bool(fresh_name("supported"))), raises=[],
+        note="lru_cache wrapper of router.is_supported_file (verified by the C07 pack: total on str, returns a bool)"))
+    out.append(FnContract(
+        target=f"{ARCH}::_should_skip_file", params=[("filename", p_str()), ("basename", p_str())],
+        result_maker=lambda ex, st, ctx: VBool(z3.Bool(fresh_name("skip"))), raises=[], total=True,
+        ensures=[("returns-a-bool", lambda c: z3.BoolVal(isinstance(c.result, VBool))),
+                 ("hidden-entries-are-skipped", lambda c: z3.Implies(z3.Or(z3.PrefixOf(sv("."), c.args["basename"].t),
+                                                                          z3.PrefixOf(sv("__MACOSX/"), c.args["filename"].t)), c.result.t)
+                  if isinstance(c.result, VBool) and all(isinstance(c.args[k], VStr) for k in ("filename", "basename"))
+                  else z3.BoolVal(not _verifying(c)))],
+        note="round 7: verified here (was assumed from C09): total on str names and returns a bool -- the flag scan of the ZIP extractor "
+             "cannot be left through this call before every member's flag was looked at"))
     out.append(FnContract(
         target=f"{ARCH}::_process_archive_entry", assumed=True, generator=True,
         params=[("filename", p_unk()), ("file_data", p_unk()), ("archive_path", p_unk()), ("basename", p_unk())],
@@ -2219,8 +2229,14 @@ LOOP_RULES[("XmlElem", "EncryptedData")] = LoopSpec(inv=epub_loop_inv, label="en
 
 
 def new_epub_ctx(ex, st, args, kwargs, node):
+    """_EpubContext(f): may raise anything (open_zipfile, OPF parsing).  The context view CEX / ROOT is the zipfile view of the same
+    bytes -- by the VERIFIED contracts of ZipContext.__init__ / exists / read_xml_root (handle_contracts) and the inheritance
+    policy P7; stated here for the two members the detector asks about."""
     ex.exc_any(st.fork(), f"{ex.loc(node)} _EpubContext()")
     f = _fl(args[0]) if args else None
+    if f is not None:
+        ctx, zf = CTX_OF(f.t), ZIP_OF(f.t)
+        st.assume(z3.And([CEX(ctx, sv(n)) == HASM(zf, sv(n)) for n in (ENCXML, RIGHTS)] + [ROOT(ctx, sv(ENCXML)) == XROOT(MBLOB(zf, sv(ENCXML)))]))
     return [(st, VExt("EpubContext", CTX_OF(f.t)) if f is not None else VExt("EpubContext"))]
 
 
@@ -2807,6 +2823,41 @@ def policy(repo, tier):
     except Exception as e:  # noqa
         ok, why = False, f"shape not recognised: {type(e).__name__}"
     obls.append(ground_obligation(oid, ok, why, PDF, definite=False))
+    # P7 (round 7): frame of the ZipContext class invariant.  The contracts of ZipContext.exists / read_xml_root / close are
+    #     verified for an instance in the invariant that ZipContext.__init__ establishes (verified).  _EpubContext inherits them:
+    #     it must construct through super().__init__(file_like) first, must not override the three methods and nothing but
+    #     ZipContext.__init__ may rebind self._zip / self._namelist (AST rule; other shapes -> unknown, the native sweep decides).
+    oid = "C08/epub_extractor.py::_EpubContext/policy#inherits-the-verified-ZipContext-view-unchanged"
+    try:
+        ZC = X + "util/zip_context.py"
+        me, mz = loader.module(EPUB, repo), loader.module(ZC, repo)
+        cls = me.classes.get("_EpubContext")
+        bases = [ast.unparse(b).split(".")[-1] for b in cls.bases] if cls is not None else []
+        init = me.functions.get("_EpubContext.__init__")
+        first = init.body[0] if init is not None and init.body else None
+        if first is not None and isinstance(first, ast.Expr) and isinstance(first.value, ast.Constant):      # docstring
+            first = init.body[1] if len(init.body) > 1 else None
+        arg1 = init.args.args[1].arg if init is not None and len(init.args.args) > 1 else None
+        super_first = first is not None and ast.unparse(first).replace(" ", "") in (f"super().__init__({arg1})", f"ZipContext.__init__(self,{arg1})")
+        overridden = [q for q in me.functions if q in ("_EpubContext.exists", "_EpubContext.read_xml_root", "_EpubContext.close")]
+        rebinds = []
+        for mod_ in (me, mz):
+            for q, fn in mod_.functions.items():
+                if q == "ZipContext.__init__" and mod_ is mz:
+                    continue
+                for n in ast.walk(fn):
+                    tg = (n.targets if isinstance(n, ast.Assign) else [n.target] if isinstance(n, (ast.AnnAssign, ast.AugAssign)) else
+                          n.targets if isinstance(n, ast.Delete) else [])
+                    for t_ in tg:
+                        for leaf in ast.walk(t_):
+                            if isinstance(leaf, ast.Attribute) and leaf.attr in ("_zip", "_namelist"):
+                                rebinds.append(f"{q}:{n.lineno}")
+        ok = bases == ["ZipContext"] and super_first and not overridden and not rebinds
+        why = (f"bases={bases}; super().__init__({arg1}) first: {super_first}; overrides: {overridden or 'none'}; "
+               f"rebinding of _zip/_namelist outside ZipContext.__init__: {rebinds or 'none'}")
+    except Exception as e:  # noqa
+        ok, why = False, f"shape not recognised: {type(e).__name__}"
+    obls.append(ground_obligation(oid, ok, why, EPUB, definite=False))
     return {"obligations": obls, "functions": fns}
 
 
